@@ -17,7 +17,8 @@ class ParallelEvaluator(Evaluator):
 
     def evaluate_async(self, problem: Problem, individuals: Iterable[Individual[Any, Any]]) -> Generator[Individual, Any, Any]:
         all_indivs = list(individuals)
-        indivs = [ind for ind in all_indivs if not ind.has_fitness(problem)]  # like SequentialEvaluator: evaluate once
+        # like SequentialEvaluator: each individual is evaluated once, even if it is presented several times
+        indivs = list({id(ind): ind for ind in all_indivs if not ind.has_fitness(problem)}.values())
 
         def mapper(ind: Individual) -> Fitness:
             return self.eval_single(problem, ind)
